@@ -41,6 +41,9 @@ type Op struct {
 	OpenErr    string           `json:"open_err,omitempty"`
 	SrcBack    int              `json:"src_back,omitempty"` // reader path: take the bytes written by the op this many steps back
 	UseKept    bool             `json:"use_kept,omitempty"` // use the IniParser created by an earlier "newini" op
+	FailAt     int              `json:"fail_at,omitempty"`  // the input stream fails after exactly this many bytes
+	FailErr    string           `json:"fail_err,omitempty"`
+	FailWith   bool             `json:"fail_with,omitempty"` // ... together with the last delivered bytes
 
 	// parse
 	Argv      []BStr             `json:"argv,omitempty"`
@@ -459,7 +462,7 @@ func runOp(w *simrt.World, b *Built, op *Op, res *OpResult) {
 		ip.ParseAsDefaults = op.AsDefaults
 		var err error
 		if op.File == "" {
-			rd := &simrt.Reader{Data: []byte(op.Data), Steps: op.Chunks, Rest: op.Rest}
+			rd := &simrt.Reader{Data: []byte(op.Data), Steps: op.Chunks, Rest: op.Rest, FailAt: op.FailAt, FailErr: op.FailErr, FailWith: op.FailWith}
 			err = ip.Parse(rd)
 			res.ReaderErr, res.ZeroReads, res.ReadCalls = rd.ErrFired, rd.ZeroReads, rd.Calls
 		} else {
@@ -470,6 +473,14 @@ func runOp(w *simrt.World, b *Built, op *Op, res *OpResult) {
 			}
 			w.Disk.ReadPlan[op.File] = op.Chunks
 			w.Disk.ReadRest[op.File] = op.Rest
+			delete(w.Disk.ReadFail, op.File)
+			if op.FailAt > 0 {
+				with := ""
+				if op.FailWith {
+					with = "with"
+				}
+				w.Disk.ReadFail[op.File] = [3]string{fmt.Sprint(op.FailAt), op.FailErr, with}
+			}
 			err = ip.ParseFile(op.File)
 		}
 		classifyErr(err, res)
